@@ -1,6 +1,6 @@
 (** Non-vacuity for C11_frag: programs of the fragment, by computation. *)
 From Coq Require Import NArith List.
-From FF Require Import Aml.Grammar Aml.WfProgram Aml.ParserFragF0Final Aml.ParserFragF1Final Aml.ParserFragF3Final Props.C11_frag.
+From FF Require Import Aml.Grammar Aml.WfProgram Aml.ParserFragF0Final Aml.ParserFragF1Final Aml.ParserFragF3Final Aml.ParserFragF4Final Props.C11_frag.
 Import ListNotations.
 Local Open Scope N_scope.
 
@@ -119,4 +119,36 @@ Example C11_fragment_F3_excludes :
   in_fragment_F3 [[ADevice 1 (f0_nm 0x44 0x45 0x56 0x30) [AScope 1 (mkName true 0 false [seg4 0x5f 0x53 0x42 0x5f]) []]]] = false /\
   in_fragment_F3 [[ADevice 1 (f0_nm 0x44 0x45 0x56 0x30) []; AScope 1 (f0_nm 0x44 0x45 0x56 0x30) []]] = false /\
   in_fragment_F3 [[AScope 1 (mkName true 0 false [seg4 0x5f 0x53 0x42 0x5f]) [AScope 1 (mkName true 0 false [seg4 0x5f 0x54 0x5a 0x5f]) []]]] = false.
+Proof. vm_compute. repeat split. Qed.
+
+(** ---- F4: ThermalZone, Processor, PowerResource (top level, inside Scope(\_PR_), nested) ---- *)
+Definition f4_program : list (list ast) :=
+  [[AThermal 1 (f0_nm 0x54 0x5a 0x30 0x30) [AName (f0_nm 0x5f 0x54 0x4d 0x50) (AConst OP_WORD 0x0bb8)];
+    AScope 1 (mkName true 0 false [seg4 0x5f 0x50 0x52 0x5f])
+      [AProcessor 1 (f0_nm 0x43 0x50 0x55 0x30) 1 0x00000410 6 [AName (f0_nm 0x5f 0x55 0x49 0x44) (AConst 0x01 0)];
+       AProcessor 2 (f0_nm 0x43 0x50 0x55 0x31) 0xff 0xdeadbeef 0 []];
+    APowerRes 1 (f0_nm 0x50 0x57 0x52 0x30) 3 0x1234
+      [AMethod 1 (f0_nm 0x5f 0x53 0x54 0x41) 0 []; AMethod 1 (f0_nm 0x5f 0x4f 0x4e 0x5f) 8 [AName (f0_nm 0x4c 0x4f 0x43 0x30) (AConst OP_BYTE 1)]];
+    ADevice 2 (f0_nm 0x44 0x45 0x56 0x30)
+      [AThermal 1 (f0_nm 0x54 0x5a 0x30 0x31) [APowerRes 1 (f0_nm 0x50 0x57 0x52 0x31) 0 0 []];
+       AProcessor 1 (f0_nm 0x43 0x50 0x55 0x32) 2 0 0 [ADevice 1 (f0_nm 0x44 0x45 0x56 0x31) []]];
+    AName (f0_nm 0x5a 0x5a 0x5a 0x5a) (AConst OP_QWORD 0x8877665544332211)]].
+
+Example C11_parse_encode_partial_F4_nonvacuous :
+  wf_program f4_program = true /\ in_fragment_F4 f4_program = true /\ in_fragment_F3 f4_program = false /\
+  in_fragment_F4 f3_program = true /\ in_fragment_F4 f2_program = true /\ in_fragment_F4 f1_program = true /\ in_fragment_F4 f0_program = true.
+Proof. vm_compute. repeat split. Qed.
+
+Example C11_parse_encode_partial_F4_instance : parse_encode_statement f4_program.
+Proof. apply C11_parse_encode_partial_F4; vm_compute; reflexivity. Qed.
+
+Example C11_parse_encode_partial_F4_run : parse_program f4_program = (0, ns f4_program) /\ length (ns f4_program) = 15%nat.
+Proof. vm_compute. split; reflexivity. Qed.
+
+(** outside F4: a Mutex, a Processor with a root-prefixed name, a Scope inside a ThermalZone, a statement in a PowerResource *)
+Example C11_fragment_F4_excludes :
+  in_fragment_F4 [[AMutex (f0_nm 0x4d 0x54 0x58 0x30) 0]] = false /\
+  in_fragment_F4 [[AProcessor 1 (mkName true 0 false [seg4 0x43 0x50 0x55 0x30]) 0 0 0 []]] = false /\
+  in_fragment_F4 [[AThermal 1 (f0_nm 0x54 0x5a 0x30 0x30) [AScope 1 (mkName true 0 false [seg4 0x5f 0x53 0x42 0x5f]) []]]] = false /\
+  in_fragment_F4 [[APowerRes 1 (f0_nm 0x50 0x57 0x52 0x30) 0 0 [AOp 0xa4 [AConst 0x01 0]]]] = false.
 Proof. vm_compute. repeat split. Qed.
